@@ -7,11 +7,14 @@
 (* (strict parser for the Graphviz subset; a parse failure leaves          *)
 (* wellformed = FALSE).  Picture(dump) is the graph the property           *)
 (* prescribes; the case is right iff the parsed graph equals it:           *)
-(*   - one node per state, named by the state number, labelled "<s>" or,   *)
-(*     for an accepting state other than the start state, "<s> T<type>";   *)
-(*   - one edge per transition, whose label ends in "(C#<class id>)";      *)
-(*   - one cluster per lookahead, labelled "LA for T<type>(Pos|Neg)",      *)
-(*     holding that lookahead's automaton with node names "<type>_<s>".    *)
+(*   - one node per state whose label shows the state number and, for an   *)
+(*     accepting state, the token type after it;                           *)
+(*   - one edge per transition whose label shows the class id last;        *)
+(*   - one cluster per lookahead whose label shows the token type and a    *)
+(*     polarity word, picturing that lookahead's automaton;                *)
+(*   - node names unique in the whole file (DOT node names are global).    *)
+(* The relation reads integers off labels and does not fix a label format: *)
+(* a maintainer may reword labels without breaking the property.           *)
 (* A "dir" case says which files were written: exactly one per mode, named *)
 (* <prefix>_<mode name>.dot.  A "fault" case is an export into a folder    *)
 (* that cannot be written to: the call must return an error.               *)
@@ -21,36 +24,53 @@ EXTENDS Integers, Sequences, FiniteSets, TLC, Json, IOUtils
 DCases == TLCEval(JsonDeserialize(IOEnv.VERIF_CASES))
 SetOf(seq) == { seq[i] : i \in DOMAIN seq }
 
-NodeLabel(s, accOf) == IF s # 0 /\ accOf[s] # {} THEN ToString(s) \o " T" \o ToString(CHOOSE t \in accOf[s] : TRUE)
-                       ELSE ToString(s)
 AccOf(A) == [s \in 0..(A.n - 1) |-> { r[2] : r \in { r \in SetOf(A.acc) : r[1] = s } }]
 
-\* the picture of one automaton: node and edge sets with names prefixed by pre
-PicNodes(A, pre) == LET acc == AccOf(A) IN { [id |-> pre \o ToString(s), label |-> NodeLabel(s, acc)] : s \in 0..(A.n - 1) }
-PicEdges(A, pre) == { [from |-> pre \o ToString(t[1]), to |-> pre \o ToString(t[3]), cls |-> t[2]] : t \in SetOf(A.trans) }
+\* The relation is stated on what the picture SHOWS, not on one label format: the harness reads
+\* the integers off every label (nums).  A node shows its state number first and, iff the state
+\* is accepting (and not the start state, which is never accepting), the token type after it.
+NodeShows(nd, s, acc) ==
+  /\ nd.nums # <<>> /\ nd.nums[1] = s
+  /\ IF s # 0 /\ acc # {} THEN Len(nd.nums) = 2 /\ nd.nums[2] \in acc ELSE Len(nd.nums) = 1
 
-GraphOK(G, A, pre) ==
-  /\ SetOf(G.nodes) = PicNodes(A, pre)
-  /\ Len(G.nodes) = A.n                                   \* no state drawn twice
-  /\ SetOf(G.edges) = PicEdges(A, pre)
-  /\ Len(G.edges) = Len(A.trans)                          \* no transition drawn twice or dropped
+\* G pictures automaton A iff its nodes are in bijection with the states (through the state
+\* number shown), every node shows what NodeShows demands, and the edges, read through that
+\* bijection with the class id they show, are exactly the transitions (no duplicates either side).
+GraphOK(G, A) ==
+  LET acc == AccOf(A)
+      stateOf == [i \in DOMAIN G.nodes |-> IF G.nodes[i].nums = <<>> THEN -1 ELSE G.nodes[i].nums[1]]
+      idOf(name) == { stateOf[i] : i \in { i \in DOMAIN G.nodes : G.nodes[i].id = name } } IN
+  /\ Len(G.nodes) = A.n
+  /\ { stateOf[i] : i \in DOMAIN G.nodes } = 0..(A.n - 1)
+  /\ \A i \in DOMAIN G.nodes : NodeShows(G.nodes[i], stateOf[i], acc[stateOf[i]])
+  /\ \A j \in DOMAIN G.edges : Cardinality(idOf(G.edges[j].from)) = 1 /\ Cardinality(idOf(G.edges[j].to)) = 1
+  /\ { << CHOOSE x \in idOf(G.edges[j].from) : TRUE, G.edges[j].cls, CHOOSE x \in idOf(G.edges[j].to) : TRUE >> : j \in DOMAIN G.edges }
+       = SetOf(A.trans)
+  /\ Len(G.edges) = Len(A.trans)
   /\ Cardinality(SetOf(A.trans)) = Len(A.trans)
 
-LaLabel(l) == "LA for T" \o ToString(l.tt) \o (IF l.pos THEN "(Pos)" ELSE "(Neg)")
+\* one cluster per lookahead, showing its token type and polarity and picturing its automaton
 ClustersOK(G, A) ==
   /\ Len(G.clusters) = Len(A.la)
   /\ \A i \in DOMAIN A.la :
        \E j \in DOMAIN G.clusters :
-         /\ G.clusters[j].label = LaLabel(A.la[i])
-         /\ GraphOK(G.clusters[j], A.la[i], ToString(A.la[i].tt) \o "_")
+         /\ A.la[i].tt \in SetOf(G.clusters[j].nums)
+         /\ G.clusters[j].polarity = (IF A.la[i].pos THEN "pos" ELSE "neg")
+         /\ GraphOK(G.clusters[j], A.la[i])
          /\ G.clusters[j].clusters = <<>>
+\* node names are global in DOT: the same name in two places is the same node
+AllNodeIds(G) == [i \in DOMAIN G.nodes |-> G.nodes[i].id]
+RECURSIVE ClusterIds(_, _)
+ClusterIds(G, j) == IF j > Len(G.clusters) THEN <<>> ELSE AllNodeIds(G.clusters[j]) \o ClusterIds(G, j + 1)
+NamesUnique(G) == LET ids == AllNodeIds(G) \o ClusterIds(G, 1) IN Cardinality(SetOf(ids)) = Len(ids)
 
 FileOK(cs) ==
   /\ cs.returned = "ok"
   /\ cs.exists
   /\ cs.wellformed
-  /\ GraphOK(cs.graph, cs.dump, "")
+  /\ GraphOK(cs.graph, cs.dump)
   /\ ClustersOK(cs.graph, cs.dump)
+  /\ NamesUnique(cs.graph)
 
 DirOK(cs) == cs.returned = "ok" /\ (cs.distinct => cs.listed = cs.expected)
 FaultOK(cs) == cs.returned = "err"
